@@ -810,6 +810,62 @@ def linear(F, fn, v, depth=0):
 
 # ---------------------------------------------------------------- positive control
 
+def r7(rep, v, prog, mod, F):
+    """R7 locally owned allocations are released on every path.  A callee that stores an allocation result into a field
+    of a struct it receives by pointer makes the caller's *local* struct the owner; from such a call, every path to a
+    return of the caller or back to another such call must pass the release of that field (edges on which the field
+    was just tested null are removed).  Instance today: th.th_version in yytbl_fload (allocated by yytbl_hdr_read)."""
+    import flow as flow_
+    from ir import Resolver
+    acq = {}      # callee name -> (param index, struct, field)
+    allocs = {n for n in list(mod.functions) + list(mod.declares) if F.alloc_family(n) == 'yy'}
+    for g in mod.functions.values():
+        res = Resolver(g)
+        for x in g.ins:
+            if x.op != 'store': continue
+            src = flow_.strip_casts(g, x.ops[0]); d = g.def_of(src)
+            if d is None or d.op != 'call' or d.callee not in allocs: continue
+            l = res.loc(x.ops[1])
+            if l[0] == 'field' and l[3][0] == 'deref' and l[3][1][0] == 'local' and l[3][1][1].endswith('.addr'):
+                pname = l[3][1][1][:-5]
+                idx = [k for k, (t, nm) in enumerate(g.params) if nm == pname]
+                if idx: acq[g.name] = (idx[0], l[1], l[2])
+    n = 0
+    for f in mod.functions.values():
+        res = Resolver(f); cfg = prog.cfg(f)
+        calls = [c for c in f.ins if c.op == 'call' and c.callee in acq]
+        for c in calls:
+            pi, S, fld = acq[c.callee]
+            if pi >= len(c.ops): continue
+            base = res.loc(c.ops[pi])
+            if base[0] != 'local': continue           # not a local owner: covered by R2
+            owner = ('field', S, fld, base)
+            def is_owner_load(val):
+                d = f.def_of(flow_.strip_casts(f, val))
+                return d is not None and d.op == 'load' and res.loc(d.ops[0]) == owner
+            frees = [x for x in f.ins if x.op == 'call' and F.release_family(x.callee) and x.ops and is_owner_load(x.ops[0])]
+            skip = set()
+            for b in f.blocks:
+                br = b.ins[-1]
+                bn = flow_.branch_on_null(f, br) if br.op == 'br' else None
+                if bn is not None and is_owner_load(bn[0]): skip.add((b, f.bmap[bn[1]]))
+            same = [k for k in calls if k.callee == c.callee and res.loc(k.ops[pi]) == base]
+            reach = cfg.reach(c, avoid=frees, edge_filter=lambda a, b: (a, b) not in skip)
+            n += 1
+            key = 'C13.R7:%s:%s:%s.%s' % (skel(v), fkey(f), base[1], fld)
+            bad = [x for x in reach if x.op == 'ret'] + [k for k in same if k in reach]
+            if not frees:
+                rep.fail('C13.R7', key + ':never-released', where(c), '%s() makes the local %s own an allocation (%s.%s) that %s never releases [variant %s]' % (c.callee, base[1], S, fld, f.name, v.name), variant=v.describe())
+            elif bad:
+                wit = cfg.path(c, lambda x: x is bad[0], avoid=frees, edge_filter=lambda a, b: (a, b) not in skip)
+                rep.fail('C13.R7', key + ':leak-path', where(bad[0]),
+                         'a path from %s(&%s) reaches %s without releasing %s.%s: the block allocated for it leaks [variant %s]' % (
+                             c.callee, base[1], 'the next ' + c.callee + ' call' if bad[0].op == 'call' else 'the return', base[1], fld, v.name),
+                         witness=['%s:%s' % (x.blk.name, x.line) for x in wit] if wit else None, variant=v.describe())
+            else:
+                rep.ok('C13.R7', '%s %s: %s.%s (from %s) is released on every path to return or re-acquisition' % (v.name, f.name, base[1], fld, c.callee))
+    return n
+
 def controls(ctx):
     rep = ctx.rep
     mod = compile_control(ctx, 'c13_control.c')
@@ -863,6 +919,7 @@ def run(ctx):
         tot['R4'] += r4(rep, v, prog, mod, F)
         tot['R5'] += r5(rep, v, prog, mod, F)
         tot['R6'] += r6(rep, v, prog, mod, F)
+        tot['R7'] = tot.get('R7', 0) + r7(rep, v, prog, mod, F)
     rep.require(nrej >= 15, 'only %d REJECT variants analysed' % nrej)
     rep.setcount('variants_analysed', len(vs)); rep.setcount('reject_variants', nrej); rep.setcount('scanner_functions_analysed', nfn)
     for r_, c in tot.items(): rep.setcount('instances_' + r_, c)
@@ -872,6 +929,7 @@ def run(ctx):
     rep.floor('C13.R3', 100, 'measured 114: 6 buffer-activation events in each of 19 REJECT variants')
     rep.floor('C13.R4', 880, 'measured 966: 6-14 releases of stored pointers + the slot clearing per variant')
     rep.floor('C13.R5', 1100, 'measured 1195: 4-7 lazily initialised locations + destroy order + 4-6 companions per variant')
+    rep.floor('C13.R7', 6, 'th.th_version in yytbl_fload of every tables-file variant')
     rep.floor('C13.R6', 300, 'measured 335: 2-3 allocation sites of yy_ch_buf per variant')
     rep.undecided += ['absence of out-of-bounds accesses driven by table contents or input length', 'use of uninitialised memory',
                       'that the ownership flag yy_is_our_buffer is set correctly for every buffer (only that releases test it)',
